@@ -309,13 +309,15 @@ def with_watchdog(fn, seconds, *args):
   """Runs fn(*args) in this process under SIGALRM.  Returns (value, None) or
   (None, 'hang') / (None, 'exception text')."""
   old = signal.signal(signal.SIGALRM, _alarm)
-  signal.alarm(int(seconds))
+  # repeating timer: an exception raised inside a GC / C callback is swallowed by
+  # the interpreter, so keep firing every second until the call is abandoned
+  signal.setitimer(signal.ITIMER_REAL, float(seconds), 1.0)
   try:
     return fn(*args), None
   except Hang:
     return None, 'hang'
   finally:
-    signal.alarm(0)
+    signal.setitimer(signal.ITIMER_REAL, 0)
     signal.signal(signal.SIGALRM, old)
 
 
